@@ -122,6 +122,11 @@ func TestCheck(t *testing.T) {
 	// Phase 2: hostile inputs, a liveness probe after every batch through the
 	// same session (same listener).
 	hostile := genHostile(r, e.salt)
+	if len(hostile) >= probeIDBase {
+		r.Inconclusive(fmt.Sprintf("hostile list of %d inputs overlaps the ID space of the probes", len(hostile)))
+
+		return
+	}
 	var hostilePaths []*pathDef
 	for _, p := range paths {
 		if p.family != famJSON && p.pipelined == 0 {
